@@ -5,14 +5,18 @@ from ..driver import f2h, fl, h2f
 from pyPRISM.util.UnitConverter import UnitConverter
 
 RULE = ("UnitConverters with random characteristic lengths / energies (many significant digits, magnitudes over 6 decades) in every accepted unit string {nanometer, angstrom, picometer, meter} x "
-        "{kilojoule/mole, kilocalorie/mole, joule/mole, joule, electron_volt}, SEVERAL converters alive in one process and used alternately; every documented method on scalars and arrays: must return a "
+        "{kilojoule/mole, kilocalorie/mole, joule/mole, joule, electron_volt and other spellings pint accepts: kJ/mol, kJ*mol^-1, kilojoule*mole**-1, 'kJ per mol', MJ/kmol, kcal/mol, eV, J, millijoule}, SEVERAL converters alive in one process and used alternately; every documented method on scalars and arrays: must return a "
         "quantity, magnitude compared with the Lean formula model and with the textbook formula evaluated with the 2019 SI constants (rtol 1e-12), dimensionality of the result, linearity (affine for "
         "Celsius), element-wise on arrays. Non-trivial = all; distinct = distinct (converter, method, argument)")
 EXTRA_TRUSTED = ["pint's unit algebra, registry and constants (compared numerically with the formula model on every run)", "2019 SI: k_B = 1.380649e-23 J/K, N_A = 6.02214076e23 /mol, e = 1.602176634e-19 C, 1 cal = 4.184 J"]
 ASSUMPTIONS = ["finite numeric arguments (float, int or ndarray)"]
 KB = 1.380649e-23; NA = 6.02214076e23
 LEN = {'nanometer': 1e-9, 'angstrom': 1e-10, 'picometer': 1e-12, 'meter': 1.0}
-EN = {'kilojoule/mole': (1e3, True), 'kilocalorie/mole': (4184.0, True), 'joule/mole': (1.0, True), 'joule': (1.0, False), 'electron_volt': (1.602176634e-19, False)}
+EN = {'kilojoule/mole': (1e3, True), 'kilocalorie/mole': (4184.0, True), 'joule/mole': (1.0, True), 'joule': (1.0, False), 'electron_volt': (1.602176634e-19, False),
+      # other spellings of the same units that pint accepts
+      'kJ/mol': (1e3, True), 'kJ*mol^-1': (1e3, True), 'kilojoule*mole**-1': (1e3, True), 'kJ per mol': (1e3, True), 'MJ/kmol': (1e3, True), 'kcal/mol': (4184.0, True),
+      'eV': (1.602176634e-19, False), 'J': (1.0, False), 'millijoule': (1e-3, False)}
+LEN['nm'] = 1e-9
 METHODS = ['toKelvin', 'toCelcius', 'toInvAngstrom', 'toInvNanometer', 'toConcentration', 'toVolumeFraction']
 
 def si(conv):
@@ -49,10 +53,14 @@ def suite_convert(ctx, case):
         conv = convs[ci]; uc = ucs[ci]
         sub = dict(case, calls=[[ci, meth, arg, d]])
         x = np.array(arg, dtype=float) if isinstance(arg, list) else float(arg)
+        x_before = np.array(x, dtype=float).copy() if isinstance(x, np.ndarray) else None
         try:
             q = call(uc, meth, x, d)
         except Exception as e:
             ctx.pred('convert', sub, False, '%s raised %s: %s' % (meth, type(e).__name__, str(e)[:100]), key='C17:raises:' + meth); continue
+        if x_before is not None:
+            ctx.pred('convert', sub, bool(np.array_equal(x, x_before)), '%s overwrote the array it was given' % meth, key='C17:purity')
+            x = x_before.copy()
         isq = hasattr(q, 'magnitude') and hasattr(q, 'units')
         ctx.pred('convert', sub, isq, '%s did not return a quantity' % meth, key='C17:quantity')
         if not isq: continue
@@ -105,8 +113,9 @@ def generate(ctx):
         if convs[-1]['ec_unit'] == 'joule' : convs[-1]['ec'] = float('%.6g' % (convs[-1]['ec'] * 1e-21))
         if convs[-1]['dc_unit'] == 'meter': convs[-1]['dc'] = float('%.6g' % (convs[-1]['dc'] * 1e-9))
         for c in convs:
-            if c['ec_unit'] == 'joule' and c['ec'] > 1e-15: c['ec'] = float('%.10g' % (c['ec'] * 1e-21))
-            if c['ec_unit'] == 'electron_volt': c['ec'] = float('%.10g' % (c['ec'] * 1e-2))
+            if c['ec_unit'] in ('joule', 'J') and c['ec'] > 1e-15: c['ec'] = float('%.10g' % (c['ec'] * 1e-21))
+            if c['ec_unit'] == 'millijoule' and c['ec'] > 1e-12: c['ec'] = float('%.10g' % (c['ec'] * 1e-18))
+            if c['ec_unit'] in ('electron_volt', 'eV'): c['ec'] = float('%.10g' % (c['ec'] * 1e-2))
             if c['dc_unit'] == 'meter' and c['dc'] > 1e-3: c['dc'] = float('%.10g' % (c['dc'] * 1e-9))
         calls = []
         for _ in range(rng.randint(4, 10)):
